@@ -506,6 +506,9 @@ class Evaluator:
                     self.flags.add("nonfinite")
                 else:
                     self.cond = max(self.cond, abs(z))
+                    if z != 0 and (abs(z) < 1e-150 or abs(z) > 1e150):
+                        # squares under/overflow binary64: complex division and modulus lose all accuracy there
+                        self.flags.add("extreme-magnitude")
 
     def size(self, v, unit):
         kind, size, imp = self.units[unit]
